@@ -1145,6 +1145,31 @@ func (e *Engine) convert(st *State, a AV, from, to types.Type) AV {
 		}
 		return e.derived(st, fmt.Sprintf("conv(%s,%s)", to.String(), a.name()), typeRange(to), to)
 	}
+	// conversions that re-encode the content — string <-> []rune, integer -> string — give a new
+	// value whose length is not the operand's: []rune(s) has between ceil(len(s)/4) and len(s)
+	// elements, string(runes) between len and 4*len bytes, string(int) between 1 and 4 bytes.
+	if kind := reencodingConversion(from, to); kind != 0 {
+		name := "reenc(" + types.TypeString(to, nil) + "," + a.name() + ")"
+		r := iset{{0, maxI}}
+		if kind == reencIntToString {
+			r = iset{{1, 4}}
+		} else if lr, ok := e.linRange(st, e.lenTerm(st, a)); ok && !lr.empty() {
+			mn, mx := lr.min(), lr.max()
+			nlo, nhi := int64(0), int64(maxI)
+			if kind == reencStringToRunes { // divide
+				nlo = (mn + 3) / 4
+				nhi = mx
+			} else { // []rune -> string: multiply (invalid runes become 3 bytes)
+				nlo = mn
+				if mx < maxI/4 {
+					nhi = mx * 4
+				}
+			}
+			r = iset{{nlo, nhi}}
+		}
+		st.terms["len("+name+")"] = r
+		return AV{Kind: KSym, Sym: name, NonNil: false}
+	}
 	// string <-> []byte, named byte-slice conversions keep identity of content
 	switch a.Kind {
 	case KStr:
@@ -1158,6 +1183,34 @@ func (e *Engine) convert(st *State, a AV, from, to types.Type) AV {
 		return AV{Kind: KSeq, Elems: el}
 	}
 	return a
+}
+
+const (
+	reencStringToRunes = 1 + iota
+	reencRunesToString
+	reencIntToString
+)
+
+// reencodingConversion classifies the conversions whose result is not the operand's bytes:
+// string -> []rune (or any non-byte element type), the reverse, and integer -> string.
+func reencodingConversion(from, to types.Type) int {
+	nonByteSlice := func(t types.Type) bool {
+		sl, ok := t.Underlying().(*types.Slice)
+		if !ok {
+			return false
+		}
+		b, ok := sl.Elem().Underlying().(*types.Basic)
+		return ok && b.Kind() != types.Uint8 && b.Info()&types.IsInteger != 0
+	}
+	switch {
+	case isStringType(from) && nonByteSlice(to):
+		return reencStringToRunes
+	case nonByteSlice(from) && isStringType(to):
+		return reencRunesToString
+	case isIntType(from) && isStringType(to):
+		return reencIntToString
+	}
+	return 0
 }
 
 func (e *Engine) compare(st *State, op token.Token, l, r AV, t types.Type) AV {
